@@ -1,6 +1,9 @@
 pub mod bind;
 pub mod c01;
 pub mod c02;
+pub mod c03;
+pub mod c06;
+pub mod c18;
 pub mod c05;
 pub mod c08;
 pub mod c09;
@@ -20,6 +23,9 @@ pub fn run(id: &str, tier: Tier) -> Option<i32> {
     Some(match id {
         "C01" => c01::run(tier),
         "C02" => c02::run(tier),
+        "C03" => c03::run(tier),
+        "C06" => c06::run(tier),
+        "C18" => c18::run(tier),
         "C05" => c05::run(tier),
         "C08" => c08::run(tier),
         "C09" => c09::run(tier),
